@@ -59,8 +59,18 @@ def items_of(output):
     return items
 
 
+def _concat(before, text, after):
+    """a caller-supplied annotator that does what the default does (the documented `annotator=` configuration)"""
+    return before + text + after
+
+
+_NCALL = [0]
+
+
 def annotate_one(plain, target, has_src, mode, anns, use_dmp):
     from eyecite import annotate_citations
+    _NCALL[0] += 1
+    extra = {"annotator": _concat} if _NCALL[0] % 3 == 0 else {}     # every third call goes through the callback path
     annotations = [((a[0], a[1]), f'<a id="{k}">', "</a>") for k, a in enumerate(anns)]
     annotations.reverse()                       # the call must sort them itself
     o = {"target": _cp(target), "plain": _cp(plain), "hasSrc": has_src, "mode": mode,
@@ -68,7 +78,7 @@ def annotate_one(plain, target, has_src, mode, anns, use_dmp):
          "src_wf": True, "src_tc": [], "minimal": True}
     try:
         out = annotate_citations(plain, annotations, source_text=target if has_src else None,
-                                 unbalanced_tags=mode, use_dmp=use_dmp)
+                                 unbalanced_tags=mode, use_dmp=use_dmp, **extra)
         if not isinstance(out, str):
             raise TypeError("annotate_citations did not return a string")
         o["items"] = items_of(out)
